@@ -2015,10 +2015,24 @@ impl<'a> TokenBasedLuaGenerator<'a> {
     #[inline]
     fn needs_space(&self, next_character: char) -> bool {
         if let Some(last) = self.output.chars().last() {
+            if last.is_ascii_digit() && next_character == '.' && self.ends_with_name() {
+                // a name that ends with a digit (`a1`) does not absorb a dot like a number does
+                return false;
+            }
             utils::should_break_with_space(last, next_character)
         } else {
             false
         }
+    }
+
+    /// Returns true when the output ends with an identifier or a keyword (and not a number).
+    fn ends_with_name(&self) -> bool {
+        let is_name_character = |c: char| c.is_ascii_alphanumeric() || c == '_';
+        let before = self.output.trim_end_matches(is_name_character);
+        self.output[before.len()..]
+            .chars()
+            .next()
+            .is_some_and(|first| !first.is_ascii_digit())
     }
 
     #[inline]
